@@ -108,7 +108,7 @@ class Check:
         self.t0 = time.time()
         self.known = [k for k in load_known_findings() if k["property"] == pid]
         self.new_violations: list[tuple[str, str]] = []
-        self.known_hits: dict[str, str] = {}
+        self.known_hits: dict = {}
         self.fixed_seen: list[str] = []
         self._seen_keys: set[str] = set()
         self.assumptions: list[str] = []
@@ -145,10 +145,18 @@ class Check:
         with open(path, "w") as f:
             json.dump(doc, f, indent=1, sort_keys=True)
             f.write("\n")
+        import fnmatch
+
         for k in self.known:
-            if k["key"] == key and k.get("status", "known") == "known":
-                self.known_hits[key] = what
-                print(f"KNOWN-FINDING: property={self.pid} {key}: {k.get('what', what)}", flush=True)
+            if k.get("status", "known") != "known":
+                continue
+            # a finding is identified by its exact key, or by a pattern over the failing inputs (key_pattern, fnmatch syntax)
+            if k.get("key") == key or ("key_pattern" in k and fnmatch.fnmatchcase(key, k["key_pattern"])):
+                ident = k.get("key") or k["key_pattern"]
+                first = ident not in self.known_hits
+                self.known_hits.setdefault(ident, []).append(key)
+                if first or k.get("key") == key:
+                    print(f"KNOWN-FINDING: property={self.pid} {key}: {k.get('what', what)}", flush=True)
                 return
         self.new_violations.append((key, path))
         if len(self.new_violations) <= self.max_report:
@@ -161,9 +169,10 @@ class Check:
         cov.setdefault("samples", [])
         cov["samples"] = _jsonable(cov["samples"])[:12]
         cov["repo_tree"] = self.sha
-        cov["known_findings_hit"] = sorted(self.known_hits)
+        cov["known_findings_hit"] = {k: (len(v) if isinstance(v, list) else 1) for k, v in sorted(self.known_hits.items())}
         cov["known_findings_listed_but_not_observed"] = sorted(
-            k["key"] for k in self.known if k.get("status", "known") == "known" and k["key"] not in self.known_hits
+            (k.get("key") or k["key_pattern"]) for k in self.known
+            if k.get("status", "known") == "known" and (k.get("key") or k["key_pattern"]) not in self.known_hits
         )
         ev = {
             "property_id": self.pid,
